@@ -684,7 +684,8 @@ class Hugr(Mapping[Node, NodeData], Generic[OpVarCov]):
 
     def _to_serial(self) -> SerialHugr:
         """Serialize the HUGR."""
-        node_it = (node for node in self._nodes if node is not None)
+        # a list, not a generator: it is iterated for the nodes and for the metadata
+        node_it = [node for node in self._nodes if node is not None]
 
         def _serialize_link(
             link: tuple[_SO, _SI],
